@@ -650,7 +650,7 @@ EXTRA_FILES = {
             "Kanal/TieProto.lean", "Kanal/ProtoSim.lean", "Kanal/TiePaths.lean",
             "Kanal/Own.lean", "Kanal/TieDiscipline.lean", "Kanal/Props/C06Code.lean"],                   # every waiter a call takes out of the wait list gets its one final store before the call returns
     "C18": ["Kanal/Bridge.lean", "Kanal/Bridge2.lean", "Kanal/Refine/Congr.lean", "Kanal/Refine/Step.lean", "Kanal/Refine/Exec.lean", "Kanal/Refine/Raw.lean", "Kanal/Refine/Mach.lean"],                                                                  # Fine read sequentially = Spec.step
-    "C03": ["Kanal/Sections.lean", "Kanal/SpecSections.lean", "Kanal/Refine/Exec.lean", "Kanal/Refine/Mach.lean"],   # + segment-atomic executions of the code are executions of Spec
+    "C03": ["Kanal/Sections.lean", "Kanal/SpecSections.lean", "Kanal/Refine/Exec.lean", "Kanal/Refine/Mach.lean", "Kanal/Refine/Movers.lean"],   # + segment-atomic executions of the code are executions of Spec
     # translated signal.rs / mutex.rs / spin_cond conform to SigM / MutexM (TieProto), and conformance is adequate (ProtoSim)
     "C07": ["Kanal/TieProto.lean", "Kanal/ProtoSim.lean", "Kanal/TiePaths.lean", "Kanal/Props/C07Pin.lean",   # + the futures are !Unpin
             "Kanal/Own.lean", "Kanal/NoDangle.lean", "Kanal/TieDiscipline.lean", "Kanal/WakerReg.lean"],     # one peer per popped signal, exactly once; no frame dies while its signal can be touched
@@ -660,9 +660,9 @@ EXTRA_FILES = {
     "C15": ["Kanal/TieProto.lean", "Kanal/Props/C07Pin.lean", "Kanal/NoDangle.lean", "Kanal/TieDiscipline.lean"],   # async_blocking_wait in Drop; Drop is what un-registers a future: it cannot be moved before
     "C11": ["Kanal/Reasons.lean"],       # an error is answered only for its reason (Closed / SendClosed / ReceiveClosed tests on the state the section bound, or a failed wait)
     "C14": ["Kanal/Props/C14Fine.lean", "Kanal/NoWaitLocked.lean"],   # + whoever holds the channel lock never waits for a peer: try_* can only be delayed by straight-line sections
-    "C01": ["Kanal/Disp.lean", "Kanal/Deliver.lean"],     # on the translated code: a sent value is disposed of exactly once; a value taken out of the channel is delivered exactly once
-    "C19": ["Kanal/Deliver.lean"],                         # drain_into: every value taken is pushed, the count is the number pushed
-    "C04": ["Kanal/TiePtr.lean"],              # pointer.rs translated: its operation lists compute PtrM's functions for every size, memory and word
+    "C01": ["Kanal/Disp.lean", "Kanal/Deliver.lean", "Kanal/RoleOK.lean"],     # on the translated code: a sent value is disposed of exactly once; a value taken out of the channel is delivered exactly once
+    "C19": ["Kanal/Deliver.lean", "Kanal/RoleOK.lean"],                         # drain_into: every value taken is pushed, the count is the number pushed
+    "C04": ["Kanal/TiePtr.lean", "Kanal/RoleOK.lean"],              # pointer.rs translated: its operation lists compute PtrM's functions for every size, memory and word
     "C05": ["Kanal/TiePtr.lean", "Kanal/Disp.lean", "Kanal/Deliver.lean"],              # … and a value passed by value is consumed exactly once (moved or bit-copied + forgotten)
     "C02": ["Kanal/Props/RealTime.lean"],      # real-time readings over executions: acceptance order in time, later value never taken first, drain order
     "C08": ["Kanal/Props/RealTime.lean"],      # at every instant of an execution: accepted-and-unblocked minus delivered <= n; rendezvous
